@@ -24,7 +24,13 @@ VARIANTS = {
     # the same real-thread team without compiler instrumentation, for valgrind's binary-level race detectors (helgrind / drd):
     # they also see the stores g++'s -fsanitize=thread leaves uninstrumented (a store that is the left-hand side of a call)
     "thr":   ["-O1", "-g", "-DSIM_GOMP_THREADS"],
+    # ASan/UBSan of clang++: g++'s AddressSanitizer pass does not instrument accesses to the real/imaginary part of a complex
+    # lvalue (std::complex compound assignment `v[i] += z`), clang's does. Compiled WITHOUT -fopenmp (clang lowers OpenMP to
+    # libomp's __kmpc_* interface, which SimGOMP does not replace): the pragmas are ignored, the regions run serially.
+    "sancl": ["-O1", "-g1", "-fsanitize=address,undefined", "-fno-omit-frame-pointer"],
 }
+CXX_OF = {"sancl": os.environ.get("VERIF_CLANGXX", "clang++")}
+NO_OPENMP = {"sancl"}
 LINK = {
     "san":   ["-fsanitize=address,undefined"],
     "plain": [],
@@ -32,6 +38,7 @@ LINK = {
     "cov":   ["--coverage"],
     "tsan":  ["-fsanitize=thread"],
     "thr":   [],
+    "sancl": ["-fsanitize=address,undefined"],
 }
 HARNESSES = ["c16_dispatch", "c06_parallel", "c13_container", "c17_workflow", "c06_omp_tsan", "omp_threads_selftest", "simtest"]
 
@@ -63,11 +70,11 @@ def run(cmd):
 
 
 def compile_one(job):
-    src, obj, flags = job
+    src, obj, flags, cxx = job
     if os.path.exists(obj):
         return (src, 0, "", True)
     tmp = obj + ".tmp%d" % os.getpid()
-    rc, out = run([CXX] + flags + ["-c", src, "-o", tmp])
+    rc, out = run([cxx] + flags + ["-c", src, "-o", tmp])
     if rc == 0:
         os.replace(tmp, obj)
     return (src, rc, out, False)
@@ -90,27 +97,28 @@ def build(variant="san", repo=None, harnesses=None, complex_=False, verbose=True
         open(fip, "w").write(fi)
     inc = ["-I" + os.path.join(VERIF, "sim", "shadow"), "-I" + os.path.join(repo, "include"), "-I" + os.path.join(bdir, "gen"),
            "-I/usr/include/eigen3", "-I" + os.path.join(VERIF, "sim"), "-I" + os.path.join(VERIF, "harness")]
-    vflags = VARIANTS[variant] + COMMON
+    cxx = CXX_OF.get(variant, CXX)
+    vflags = VARIANTS[variant] + [f for f in COMMON if not (variant in NO_OPENMP and f == "-fopenmp")]
     inc_hash = tree_hash(os.path.join(repo, "include")) + tree_hash(os.path.join(VERIF, "sim", "shadow")) + \
         sha(open(os.path.join(VERIF, "sim", "sim.hpp"), "rb").read()) + sha(fi)
     hh = tree_hash(os.path.join(VERIF, "harness")) if os.path.isdir(os.path.join(VERIF, "harness")) else ""
     jobs, lib_objs, sim_objs, h_objs = [], [], [], {}
     for src in sorted(glob.glob(os.path.join(repo, "src", "**", "*.cpp"), recursive=True)):
         flags = ["-std=c++11"] + vflags + inc
-        key = sha(open(src, "rb").read(), inc_hash, " ".join(flags), CXX)
+        key = sha(open(src, "rb").read(), inc_hash, " ".join(flags), cxx)
         obj = os.path.join(odir, "lib_%s-%s.o" % (os.path.basename(src)[:-4], key))
-        jobs.append((src, obj, flags)); lib_objs.append(obj)
+        jobs.append((src, obj, flags, cxx)); lib_objs.append(obj)
     for src in [os.path.join(VERIF, "sim", "sim.cpp"), os.path.join(VERIF, "sim", "simgomp.cpp")]:
         flags = ["-std=c++17"] + vflags + inc
-        key = sha(open(src, "rb").read(), inc_hash, " ".join(flags), CXX)
+        key = sha(open(src, "rb").read(), inc_hash, " ".join(flags), cxx)
         obj = os.path.join(odir, "sim_%s-%s.o" % (os.path.basename(src)[:-4], key))
-        jobs.append((src, obj, flags)); sim_objs.append(obj)
+        jobs.append((src, obj, flags, cxx)); sim_objs.append(obj)
     for h in harnesses:
         src = os.path.join(VERIF, "harness", h + ".cpp")
         flags = ["-std=c++17"] + vflags + inc
-        key = sha(open(src, "rb").read(), inc_hash, hh, " ".join(flags), CXX)
+        key = sha(open(src, "rb").read(), inc_hash, hh, " ".join(flags), cxx)
         obj = os.path.join(odir, "h_%s-%s.o" % (h, key))
-        jobs.append((src, obj, flags)); h_objs[h] = obj
+        jobs.append((src, obj, flags, cxx)); h_objs[h] = obj
     t0 = time.time()
     failed = []
     with concurrent.futures.ThreadPoolExecutor(max_workers=int(os.environ.get("VERIF_JOBS", "16"))) as ex:
@@ -136,7 +144,7 @@ def build(variant="san", repo=None, harnesses=None, complex_=False, verbose=True
         stamp = exe + ".key"
         if not (os.path.exists(exe) and os.path.exists(stamp) and open(stamp).read() == lkey):
             # linked WITHOUT -fopenmp/-lgomp: SimGOMP provides the OpenMP runtime entry points
-            rc, out = run([CXX] + LINK[variant] + [ho] + lib_objs + sim_objs + ["-lboost_serialization", "-lpthread", "-o", exe])
+            rc, out = run([cxx] + LINK[variant] + [ho] + lib_objs + sim_objs + ["-lboost_serialization", "-lpthread", "-o", exe])
             if rc != 0:
                 sys.stderr.write("LINK FAILED: %s\n%s\n" % (h, out[-6000:]))
                 raise SystemExit(3)
